@@ -53,6 +53,24 @@ class Ctx:
         self.tlc_transitions = 0
         self.tlc_runs = []
         self.keep = bool(os.environ.get("VERIF_KEEP"))
+        self.fast_root = None
+
+    def fastdir(self, *p):
+        """A directory for work trees that are created and removed tens of thousands of times: on tmpfs when there is
+        one (VERIF_NO_TMPFS=1 turns that off), else under the scratch directory.  Removed with the scratch directory."""
+        if self.fast_root is None:
+            self.fast_root = self.scratch
+            if not os.environ.get("VERIF_NO_TMPFS"):
+                for base in ("/dev/shm",):
+                    if os.path.isdir(base) and os.access(base, os.W_OK):
+                        try:
+                            self.fast_root = tempfile.mkdtemp(prefix="verif-%s-" % self.prop.lower(), dir=base)
+                            break
+                        except OSError:
+                            pass
+        d = os.path.join(self.fast_root, *p)
+        os.makedirs(d, exist_ok=True)
+        return d
 
     def path(self, *p):
         d = os.path.join(self.scratch, *p)
@@ -76,6 +94,14 @@ class Ctx:
                 except OSError:
                     pass
         shutil.rmtree(self.scratch, ignore_errors=True)
+        if self.fast_root and self.fast_root != self.scratch:
+            for root, dirs, _ in os.walk(self.fast_root):
+                for d in dirs:
+                    try:
+                        os.chmod(os.path.join(root, d), 0o700)
+                    except OSError:
+                        pass
+            shutil.rmtree(self.fast_root, ignore_errors=True)
 
 
 # --------------------------------------------------------------------------
